@@ -35,7 +35,7 @@ def run(ck):
     for i in range(n):
         fitter = "single" if i % 3 else "multi"
         types = [PROFILES[i % 7]] if fitter == "single" else [rng.choice(PROFILES) for _ in range(rng.randint(1, 3))]
-        cases.append({"mode": "keys", "fitter": fitter, "types": types, "sky": ["none", "flat", "tilted-plane"][i % 3], "loss": losslib.LOSSES[i % 10],
+        cases.append({"mode": "keys", "fitter": fitter, "types": types, "sky": ["none", "flat", "tilted-plane"][(i + i // 3) % 3], "loss": losslib.LOSSES[i % 10],
                       "renderer": rng.choice(["pixel", "fourier"]), "suffix": ["", "_a", "", "_x1"][i % 4] if fitter == "multi" else "", "N": 8, "seed": i})
     nfit = 1 if quick else 6
     for i in range(nfit):
